@@ -290,7 +290,16 @@ def check_indent(run: Run, rule: str = "R01.4") -> None:
 
 
 def _is_child_arg(call: ast.Call) -> bool:
-    return bool(call.args) and isinstance(call.args[0], ast.Name) and call.args[0].id in ("child", "item", "c", "node")
+    """the first argument is the variable of an enclosing `for` loop (an element of the node's children), whatever its name"""
+    if not (call.args and isinstance(call.args[0], ast.Name)):
+        return False
+    v = call.args[0].id
+    cur = getattr(call, "_parent", None)
+    while cur is not None and not isinstance(cur, (ast.FunctionDef, ast.AsyncFunctionDef)):
+        if isinstance(cur, (ast.For, ast.AsyncFor)) and any(isinstance(x, ast.Name) and x.id == v for x in ast.walk(cur.target)):
+            return True
+        cur = getattr(cur, "_parent", None)
+    return False
 
 
 # ======================================================================================= R01.6
